@@ -7,11 +7,11 @@ WRAP = ("malloc", "realloc", "calloc", "free")
 
 
 def consts(esz, hasx):
-    return f"  Esz = {esz}\n  HasX = {'TRUE' if hasx else 'FALSE'}"
+    return f"  Esz = {esz}\n  HasX = {int(hasx)}"        # 0 none, 1 (True) both callbacks, 2 constructor only, 3 destructor only
 
 
 def closure(ctx, exe, esz, hasx, maxn, props):
-    tag = f"e{esz}{'x' if hasx else ''}"
+    tag = f"e{esz}{['', 'x', 'c', 'd'][int(hasx)]}"
     cfg = "CONSTANTS\n" + consts(esz, hasx) + f"\n  MaxN = {maxn}\nSPECIFICATION Spec\nINVARIANT InvOK\nINVARIANT InvStorage\nINVARIANT InvAt\n"
     r = l0(ctx, tag, "Vector", "", cfg)
     impl_phase(ctx, "impl-" + tag, exe, ["explore"], [esz, int(hasx), maxn, 1], "TraceVec", "", consts(esz, hasx), props,
@@ -43,7 +43,7 @@ def run(ctx):
     # the arithmetic of set_capacity for *every* request in a 6-bit word
     cfg = "CONSTANTS\n  W = 64\n  Sizes = {1,2,3,4,8,16}\n  Guarded = TRUE\n  AllocLimit = 40\nSPECIFICATION Spec\nINVARIANT StorageOK\nCHECK_DEADLOCK FALSE\n"
     l0(ctx, "word64", "VecWord", "", cfg)
-    sizes = [(1, False), (4, True), (64, False)] if ctx.quick else [(1, True), (2, False), (3, True), (4, False), (8, True), (16, False), (64, True)]
+    sizes = [(1, False), (4, True), (2, 3), (64, 2)] if ctx.quick else [(1, True), (2, False), (3, True), (4, False), (8, 2), (16, 3), (64, True), (5, 2), (12, 3)]
     for esz, hasx in sizes:
         closure(ctx, exe, esz, hasx, 4 if ctx.quick else 5, props)
     if ctx.quick:
